@@ -7,6 +7,7 @@ case kinds (every case is compared with the Lean model):
   if, ifs, switch   condition/value and target/case/result lists                                  (oracle)
   err     an error value or error-producing expression in a tested condition / target position    (oracle)
   pred    the ten predicates on one value: ten direct calls + ten formulas NAME(v)                (oracle)
+          + ten formulas NAME(C3), the value answered by the cell listener (oracle only, not sent to the model)
   pred1   one predicate, one direct call on a value                                               (model only)
   arity   one direct call: unusual argument counts; N, T, ERROR.TYPE, IFERROR, IFNA on the pool   (model only)
 modes of tf/not/if/ifs/switch/err cases: fn (one direct call; generated as fn1 = one case per function), lit (formula
@@ -54,13 +55,15 @@ RULE = ('modes: fn = one direct call of the registered Python function (nested l
         'FALSE} tuple of length 2..3 for AND/OR/XOR (16), as IFS condition 0..3 with the earlier conditions all false '
         '(reached) or one TRUE (not reached) (10 lists); 500 (8000) x scale seeded pool tuples of length 1..6 with one or (p '
         '1/3) two errors, 70% regrouped (depth <= 3), one random mode.  (d) pred: '
-        'ISNUMBER/ISTEXT/ISLOGICAL/ISBLANK/ISERROR/ISERR/ISNA/ISNONTEXT/ISEVEN/ISODD, each by direct call and as formula '
-        'NAME(v) with v a variable, on a 45-value pool (7 ints incl. -2^65, 8 floats incl. 0.0, -0.0, 2^53, -1/1024, TRUE, '
+        'ISNUMBER/ISTEXT/ISLOGICAL/ISBLANK/ISERROR/ISERR/ISNA/ISNONTEXT/ISEVEN/ISODD, each by direct call, as formula '
+        'NAME(v) with v a variable, and a third time as formula NAME(C3) (form `formula-cell`: the value is what the parser\'s one '
+        'callCellValue listener hands to its setter for the label C3 - 0, FALSE and the empty text are values, not blanks; any '
+        'other label is answered None; 30 evaluations per pred case), on a 45-value pool (7 ints incl. -2^65, 8 floats incl. 0.0, -0.0, 2^53, -1/1024, TRUE, '
         'FALSE, 7 texts incl. "", " ", "1", "1.5", "TRUE", "#N/A", blank, nine errors, 3 dates, lists [1], [], ["a",[blank]], '
         '5 foreign objects: object, instance, dict, bytes, frozenset), ints -12..12, k/8 for k = -48..48, 300 (6000) x scale '
         'seeded numbers (ints in +-10^20, m/2^e with |m| < 2^40, e < 30, integer-valued floats m*2^e with |m| < 2^52, e < '
         '200, odd/2^e with odd < 2^21, e in 1..59); judged per group of ten answers (the '
-        'ten direct calls, the ten formulas): the five classifiers a logical, TRUE exactly on their kind; ISNONTEXT = not '
+        'ten direct calls, the ten formulas over the variable, the ten formulas over the cell - the same demands on each group): the five classifiers a logical, TRUE exactly on their kind; ISNONTEXT = not '
         'ISTEXT; ISERR / ISNA split the errors; on a number ISEVEN a logical and ISODD a logical or 1/0 by the truncated integer '
         'part, complementary; on text, blank, dates, lists, foreign objects both #VALUE!; on a logical (TRUE, FALSE) the two must '
         'answer alike - both a value, and then complementary, or both an error; an error value given to them is not judged.  (e) model comparison only (oracle silent, never non-trivial): pred1 = '
@@ -68,7 +71,7 @@ RULE = ('modes: fn = one direct call of the registered Python function (nested l
         'zero, missing and surplus arguments of the logical functions, TRUE, FALSE, NA, the ten predicates, N, T, ERROR.TYPE, '
         'IFERROR, IFNA, and N, T, ERROR.TYPE (not on the dict), IFERROR(v,777), IFNA(v,777) on the 45 pool values.  every '
         'case is compared with the Lean model (a single direct call as fn request, else the formulas of the case as one '
-        'c04.batch; of a pred case only the ten formulas); the oracle judges tf, not, if, ifs, switch, err, pred.  '
+        'c04.batch; of a pred case only the ten formulas NAME(v) - the ten NAME(C3) are judged by the oracle only); the oracle judges tf, not, if, ifs, switch, err, pred.  '
         'non-trivial (distinct cases) = the oracle decided an outcome for some function of the case: always for those kinds '
         'except switch lists without a complete pair or whose scan meets a logical/number or blank/non-blank comparison '
         'before a match.  about 12900 cases quick, 169500 thorough at scale 1; scale 5 in quick when a fingerprinted function '
@@ -82,7 +85,9 @@ TRUSTED = ['complex numbers, NaN and infinities are not modelled and not generat
            'the grammar takes them)',
            'direct(): formulas.get_for(NAME)(*args) stands for Parser.call_function; an exception is mapped to an error code '
            'by error.from_message (unknown text: #ERROR!); one Parser serves all formulas, its variables are set per formula '
-           'and restored',
+           'and restored; the same Parser carries one callCellValue listener that answers from a table (_cells) the harness '
+           'clears and fills with {C3: value} before each NAME(C3) evaluation of a pred case - the value is handed over as the '
+           'Python object of the pool (foreign objects, lists and error values included)',
            'model comparison (fx.value_matches / record_matches): exact type and value for ints, logicals, text, errors, '
            'blanks, lists element-wise, floats within 4 ulps, dates within a few us; a model answer `(o ..)` (no opinion) '
            'counts as agreement; a raised exception must meet `(raise tag)`.  the oracle uses no tolerance (same type, same '
@@ -115,6 +120,9 @@ ASSUMPTIONS = ['truth values: TRUE and non-zero numbers true; FALSE, zero (0, 0.
                'must be #VALUE! on text (also "1", "1.5"), blanks, dates, lists and foreign objects; on a logical the two must answer '
                'alike - both a parity, complementary, or both an error - which of the two is not judged; errors given to them are '
                'not judged',
+               'the predicates classify the VALUE whatever its route: a value the host\'s cell listener answers for C3 is '
+               'classified like the same value held by a variable or passed in a direct call (0, FALSE and "" answered for a cell '
+               'are a number, a logical and a text, not a blank; only None is a blank)',
                'an error in an IF/IFS/SWITCH *value* position is returned like any other value (only tested conditions are '
                'constrained)']
 EXHAUSTIVE = {'quick': False, 'thorough': False}
